@@ -9,6 +9,7 @@ require (
 	github.com/anishathalye/porcupine v1.3.0
 	github.com/gogo/protobuf v1.3.2
 	github.com/pkg/errors v0.9.1
+	github.com/prometheus/client_golang v1.20.2
 	github.com/sony/gobreaker v1.0.0
 	golang.org/x/tools v0.29.0
 	google.golang.org/protobuf v1.34.2
@@ -26,7 +27,6 @@ require (
 	github.com/lithammer/shortuuid/v3 v3.0.7 // indirect
 	github.com/munnerz/goautoneg v0.0.0-20191010083416-a7dc8b61c822 // indirect
 	github.com/oklog/ulid v1.3.1 // indirect
-	github.com/prometheus/client_golang v1.20.2 // indirect
 	github.com/prometheus/client_model v0.6.1 // indirect
 	github.com/prometheus/common v0.55.0 // indirect
 	github.com/prometheus/procfs v0.15.1 // indirect
